@@ -1795,6 +1795,13 @@ func (in *interp) evalCall(call *ast.CallExpr, st *state) []AV {
 					}
 				}
 				out = append(out, v)
+			case avOpaque:
+				// an opaque token keeps its identity through integer conversions (engines use it as a tag)
+				if b, ok := tv.Type.Underlying().(*types.Basic); ok && b.Info()&types.IsInteger != 0 {
+					out = append(out, v)
+				} else {
+					out = append(out, top)
+				}
 			default:
 				out = append(out, top)
 			}
